@@ -109,6 +109,43 @@ func ZZ_C12_n1() { zzC12(1) }
 func ZZ_C12_n2() { zzC12(2) }
 func ZZ_C12_n3_T() { zzC12(3) }
 
+// ATTEMPT (solver unknown within 5 minutes per query, so not part of any registered command):
+// GetSum for same-signed data, with the MULTIPLICATIVE form of the accuracy contract
+// (Value(Index(v)) within (alpha+1e-12) of v): the approximate sum is within that relative error of
+// the true sum, up to the rounding of the additions (4 ulps allowed).
+func zzC12Sum(n int, negative bool) {
+	zzvBound("GetSum", "n same-signed values in [1e-100, 1e100] with unit weights on real sparse stores; mapping contract in multiplicative form with a = 0.01+1e-12")
+	zzvMapOrders(2)
+	zzvExactFloatsOnly()
+	zzvSolverSeconds(300)
+	m := zzContract()
+	s := NewDDSketch(m, store.NewSparseStore(), store.NewSparseStore())
+	const a = 0.01 + 1e-12
+	trueSum := 0.0
+	for i := 0; i < n; i++ {
+		v := zzvFloat64("v")
+		zzvAssume(zzvAnd(v >= 1e-100, zzvAnd(v <= 1e100, zzvAnd(v > m.min, v <= m.max))))
+		x := m.Value(m.Index(v))
+		zzvAssume(zzvAnd(x >= v*(1-a), x <= v*(1+a)))
+		if negative {
+			zzvAssert("accepted", s.Add(-v) == nil)
+		} else {
+			zzvAssert("accepted", s.Add(v) == nil)
+		}
+		trueSum += v
+	}
+	zzvCover("built")
+	got := s.GetSum()
+	if negative {
+		got = -got
+	}
+	const slack = 1 + 8*2.220446049250313e-16
+	zzvAssert("sum-within-alpha-of-true-sum", zzvAnd(got >= trueSum*(1-a)/slack, got <= trueSum*(1+a)*slack))
+}
+func ZZ_C12_sum_positive_n1_X() { zzC12Sum(1, false) }
+func ZZ_C12_sum_negative_n1_X() { zzC12Sum(1, true) }
+func ZZ_C12_sum_positive_n2_X() { zzC12Sum(2, false) }
+
 // ---------- C11: weighted quantiles ----------
 
 var zzWeightGrid = []float64{0.0009765625, 0.25, 0.5, 1, 1.5, 3, 1048576}
